@@ -1,12 +1,15 @@
 #!/bin/bash
 # usage: sweep.sh <out-dir> <seed-from> <seed-to> <property ids...>
-# Runs the quick checks for several seeds against a frozen copy of /repo's HEAD in a sandbox; keeps the run directory
-# of every non-zero exit under <out-dir>.
+# Runs the quick checks for several seeds from a frozen snapshot of committed /verif against a frozen copy of /repo's
+# HEAD, all in scratch directories; keeps output and replays of every non-zero exit under <out-dir>.
 out=$1; a=$2; b=$3; shift 3
-cd /verif
 mkdir -p $out
 wt=$(mktemp -d /tmp/sweepwt.XXXXXX); rmdir $wt
+vf=$(mktemp -d /tmp/sweepvf.XXXXXX); rmdir $vf
 git -C /repo worktree add -q --detach $wt HEAD || exit 2
+git -C /verif worktree add -q --detach $vf HEAD || exit 2
+cd $vf
+( cd coq && coq_makefile -f _CoqProject -o Makefile >/dev/null && make -j16 >/dev/null 2>&1 ) || { echo "coq build failed" | tee -a $out/log.txt; }
 for seed in $(seq $a $b); do
   for p in "$@"; do
     sb=$(mktemp -d /tmp/sweepsb.XXXXXX)
@@ -17,3 +20,4 @@ for seed in $(seq $a $b); do
   done
 done
 git -C /repo worktree remove --force $wt
+git -C /verif worktree remove --force $vf
